@@ -1,4 +1,130 @@
 import PgsVerif.Model.GoNames
+/-!
+# C16 — predicted Go identifiers equal what the pinned protoc-gen-go emits
+
+Key facts relating the two transcriptions: pgsgo's `camelCase` (copied from the old generator)
+and protobuf-go v1.23.0's `strs.GoCamelCase`; pgsgo's `joinChild` chain and `GoCamelCase` of the
+dotted nested name.  For **all** byte strings (identifiers never contain dots).
+-/
 namespace Pgs.GoNames
-theorem placeholder_C16 : True := trivial
+open Pgs
+
+theorem dot_ne_underscore : (dot == underscore) = false := by decide
+theorem isLower_dot : isLower dot = false := by decide
+theorem isDigit_dot : isDigitB dot = false := by decide
+
+/-- away from the start and without dots, `GoCamelCase`'s loop is `camelCase`'s loop -/
+theorem goCamelAux_eq_camelAux (s : Bytes) (hs : dot ∉ s) : ∀ copy, Protogen.goCamelAux false copy s = PgsGo.camelAux copy s := by
+  induction s with
+  | nil => intro copy; rfl
+  | cons c rest ih =>
+    intro copy
+    have hc : (c == dot) = false := by
+      have : c ≠ dot := fun e => hs (e ▸ List.mem_cons_self ..)
+      simpa using this
+    have hr : dot ∉ rest := fun h => hs (List.mem_cons_of_mem _ h)
+    simp only [Protogen.goCamelAux, PgsGo.camelAux, hc, Bool.false_and, Bool.and_false, Bool.false_eq_true, if_false, ih hr]
+
+/-- **`camelCase` = `GoCamelCase`** on every name without a dot. -/
+theorem C16_camelCase_eq_GoCamelCase (s : Bytes) (hs : dot ∉ s) : Protogen.goCamelCase s = PgsGo.camelCase s := by
+  cases s with
+  | nil => rfl
+  | cons c rest =>
+    have hc : (c == dot) = false := by
+      have : c ≠ dot := fun e => hs (e ▸ List.mem_cons_self ..)
+      simpa using this
+    have hr : dot ∉ rest := fun h => hs (List.mem_cons_of_mem _ h)
+    unfold Protogen.goCamelCase PgsGo.camelCase
+    by_cases hu : (c == underscore) = true
+    · simp only [Protogen.goCamelAux, hc, hu, Bool.false_and, Bool.and_true, Bool.false_eq_true, if_false, if_true,
+        goCamelAux_eq_camelAux rest hr]
+    · have hu' : (c == underscore) = false := by simpa using hu
+      simp only [Protogen.goCamelAux, PgsGo.camelAux, hc, hu', Bool.false_and, Bool.and_false, Bool.false_eq_true,
+        if_false, goCamelAux_eq_camelAux rest hr]
+
+theorem nextLower_append_dot (a b : Bytes) : nextLower (a ++ dot :: b) = nextLower a := by
+  cases a with
+  | nil => simp [nextLower, isLower_dot]
+  | cons x a => rfl
+
+/-- `GoCamelCase` is compositional at a dot: the part after the dot is camel-cased on its own,
+    joined with '_' unless it starts with a lower-case letter -/
+theorem goCamelAux_at_dot (b : Bytes) : ∀ (a : Bytes) (st copy : Bool),
+    Protogen.goCamelAux st copy (a ++ dot :: b) =
+      Protogen.goCamelAux st copy a ++
+        (if nextLower b then Protogen.goCamelAux true false b else underscore :: Protogen.goCamelAux true false b) := by
+  intro a
+  induction a with
+  | nil =>
+    intro st copy
+    simp only [List.nil_append, Protogen.goCamelAux, isLower_dot, Bool.and_false, Bool.false_eq_true, if_false, beq_self_eq_true,
+      Bool.true_and]
+    split <;> simp
+  | cons c a ih =>
+    intro st copy
+    simp only [List.cons_append, Protogen.goCamelAux, nextLower_append_dot, ih]
+    repeat' split
+    all_goals simp
+
+/-- `joinChild` of the parent's Go name is `GoCamelCase` of the dotted name -/
+theorem C16_joinChild (A b : Bytes) (hb : dot ∉ b) :
+    Protogen.goCamelCase (A ++ dot :: b) = PgsGo.joinChild (Protogen.goCamelCase A) b := by
+  unfold Protogen.goCamelCase PgsGo.joinChild
+  rw [goCamelAux_at_dot]
+  have := C16_camelCase_eq_GoCamelCase b hb
+  unfold Protogen.goCamelCase at this
+  rw [this]
+  split <;> simp
+
+theorem joinWith_dot_foldl (n : Bytes) (rest : List Bytes) :
+    joinWith [dot] (n :: rest) = rest.foldl (fun acc b => acc ++ dot :: b) n := by
+  induction rest generalizing n with
+  | nil => rfl
+  | cons b rest ih =>
+    rw [joinWith_cons_cons_dot, List.foldl_cons, ← ih]
+    -- joinWith [dot] ((n ++ dot :: b) :: rest) = n ++ [dot] ++ joinWith [dot] (b :: rest)
+    cases rest with
+    | nil => simp [joinWith]
+    | cons c rest => simp [joinWith]
+where
+  joinWith_cons_cons_dot {n b : Bytes} {rest : List Bytes} :
+      joinWith [dot] (n :: b :: rest) = n ++ [dot] ++ joinWith [dot] (b :: rest) := rfl
+
+/-- **Nested types**: pgsgo's chain of `joinChild` from the outermost message is exactly
+    `GoCamelCase` of the dotted nested name, at any nesting depth. -/
+theorem C16_nested_name (path : List Bytes) (h : ∀ n ∈ path, dot ∉ n) :
+    PgsGo.nestedName path = Protogen.nestedName path := by
+  cases path with
+  | nil => rfl
+  | cons n rest =>
+    unfold PgsGo.nestedName Protogen.nestedName
+    rw [joinWith_dot_foldl]
+    have hn : dot ∉ n := h n (List.mem_cons_self ..)
+    have key : ∀ (rest : List Bytes) (A : Bytes), (∀ b ∈ rest, dot ∉ b) →
+        rest.foldl PgsGo.joinChild (Protogen.goCamelCase A) =
+          Protogen.goCamelCase (rest.foldl (fun acc b => acc ++ dot :: b) A) := by
+      intro rest
+      induction rest with
+      | nil => intro A _; rfl
+      | cons b rest ih =>
+        intro A hr
+        simp only [List.foldl_cons]
+        rw [← C16_joinChild A b (hr b (List.mem_cons_self ..))]
+        exact ih _ (fun x hx => hr x (List.mem_cons_of_mem _ hx))
+    show List.foldl PgsGo.joinChild (PgsGo.camelCase n) rest = _
+    rw [← C16_camelCase_eq_GoCamelCase n hn]
+    exact key rest n (fun b hb => h b (List.mem_cons_of_mem _ hb))
+
+/-- both sides resolve field / oneof names with the same algorithm over their camel-casing:
+    when the camel-casings agree on the message's identifiers, so do the resolved names -/
+theorem C16_unique_names (fields : List AST.FieldD) (oneofs : List String)
+    (h : ∀ s : String, PgsGo.camelCase (bytesOfString s) = Protogen.goCamelCase (bytesOfString s)) :
+    uniqueNames PgsGo.camelCase fields oneofs = uniqueNames Protogen.goCamelCase fields oneofs := by
+  unfold uniqueNames
+  simp only [h]
+
+/-! ### non-vacuity: Outer._inner.x_y -/
+example : PgsGo.nestedName [[79,117,116,101,114], [95,105,110,110,101,114], [120,95,121]]
+    = [79,117,116,101,114,95,88,73,110,110,101,114,88,89] := by decide
+
 end Pgs.GoNames
